@@ -140,6 +140,32 @@ MINSUB = Fraction(1, 1 << 1074)
 MAXD = Fraction(((1 << 53) - 1) << 971)
 
 
+def rne_bits(v, bits):
+    """the positive Fraction v rounded to `bits` significant bits, ties to even"""
+    n, d = v.numerator, v.denominator
+    sh = n.bit_length() - d.bit_length() - bits
+    while True:
+        q, r = divmod(n << max(0, -sh), d << max(0, sh))
+        if q.bit_length() == bits:
+            break
+        sh += 1 if q.bit_length() > bits else -1
+    if 2 * r > (d << max(0, sh)) or (2 * r == (d << max(0, sh)) and q & 1):
+        q += 1
+    return Fraction(q) * (Fraction(2) ** sh)
+
+
+def dr_sensitive(fr):
+    """input class 'rat-double-rounding': a rational whose quotient num/den has, aligned on the bit lengths of numerator and
+    denominator, 54 significant bits and for which rounding to 54 bits first changes the result of rounding to 53 bits"""
+    v = abs(fr)
+    if v == 0:
+        return False
+    n, d = v.numerator, v.denominator
+    if v < Fraction(2) ** (n.bit_length() - d.bit_length()):
+        return False
+    return rne_bits(rne_bits(v, 54), 53) != rne_bits(v, 53)
+
+
 def conv_tag(na, fa, nb, fb):
     """names the class of the failing input when an operand held as a rational lies where no double is near:
     strictly between half the least subnormal and the least subnormal, or strictly between the largest double and
@@ -152,6 +178,8 @@ def conv_tag(na, fa, nb, fb):
                 tags.append("rat-below-minsub")
             elif MAXD < v < MAXD + (1 << 970):
                 tags.append("rat-above-max")
+            elif MINSUB * (1 << 52) <= v <= MAXD and dr_sensitive(v):
+                tags.append("rat-double-rounding")
     return "+".join(sorted(set(tags))) or "none"
 
 
@@ -261,38 +289,57 @@ def run(tier):
             for (fb, eb) in fm[j - 1]:
                 cases.append((i, j, fa, fb, "clause", q_clause(ea, eb)))
         cases.append((i, j, fm[i - 1][0][0], fm[j - 1][0][0], "inline", q_inline(fm[i - 1][0][1], fm[j - 1][0][1])))
-    B = 200
-    jobs = []
-    for bi in range(0, len(cases), B):
-        steps = [{"consult": CLAUSE}, {"q": "X is float(0).", "max": 1}]
-        steps += [{"q": c[5], "max": 2} for c in cases[bi:bi + B]]
-        jobs.append({"id": bi, "steps": steps, "timeout": 300, "fresh": True})
-    results = run_jobs(jobs, workers=workers, job_timeout=300)
+    # A panic of the code under test loses the machine (and the consulted clause): the cases after it are run again.
+    outcome = {}
+    pending, rnd, size = list(range(len(cases))), 0, 200
+    while pending:
+        batch = []
+        for bi in range(0, len(pending), size):
+            chunk = pending[bi:bi + size]
+            steps = [{"consult": CLAUSE}, {"q": "X is float(0).", "max": 1}] + [{"q": cases[c][5], "max": 2} for c in chunk]
+            batch.append(({"id": "r%d-%d" % (rnd, bi), "steps": steps, "timeout": 300, "fresh": True}, chunk))
+        rs = run_jobs([jb for jb, _ in batch], workers=workers, job_timeout=300)
+        pending = []
+        crashed = False
+        for jb, chunk in batch:
+            r = rs.get(jb["id"], {"crash": "missing"})
+            if "crash" in r:
+                if len(chunk) == 1:
+                    outcome[chunk[0]] = {"panic": "worker process %s" % r["crash"]}
+                else:
+                    pending += chunk
+                    crashed = True
+                continue
+            outs = r["res"][2:]
+            for pos, c in enumerate(chunk):
+                out = outs[pos] if pos < len(outs) else {"panic": "no result"}
+                outcome[c] = out
+                if "panic" in out:
+                    pending += chunk[pos + 1:]
+                    break
+        rnd += 1
+        if crashed:
+            size = max(1, size // 8)
+        if rnd > 200:
+            raise common.ToolError("replay does not converge (more than 200 rounds of panics/crashes)")
     nsamp = 0
-    for job in jobs:
-        bi = job["id"]
-        r = results.get(bi, {"crash": "missing"})
-        if "crash" in r:
-            rep.violation("batch %d crashed: %s" % (bi, r["crash"]), {"job": job, "result": r})
-            continue
-        outs = r["res"][2:]
-        for k, case in enumerate(cases[bi:bi + B]):
-            i, j, fa, fb, ctx, q = case
-            na, nb = table[i - 1], table[j - 1]
-            v = pairs[(i, j)]
-            exp = [int(bool(x)) for x in v["r"]]
-            out = outs[k] if k < len(outs) else {"panic": "no result"}
-            rep.case((cls(na), cls(nb), v["c"], fa, fb, ctx))
-            ok, got = judge(out, exp, na, nb, ctx == "clause")
-            if not ok:
-                kind = "%s-%s" % (na["t"], nb["t"])
-                sig = "cmp conv=%s kind=%s a=%s b=%s forms=%s/%s ctx=%s expected=%s got=%s" % (
-                    conv_tag(na, fa, nb, fb), kind, show(na), show(nb), fa, fb, ctx, exp, got)
-                rep.violation(sig, {"a": na, "b": nb, "forms": [fa, fb], "context": ctx, "query": q,
-                                    "expected": exp, "got": got})
-            elif nsamp < 5 and (i * 7 + j * 13) % 1601 == 0:
-                nsamp += 1
-                rep.sample({"a": show(na), "b": show(nb), "forms": [fa, fb], "context": ctx, "query": q[:300], "relations": exp})
+    for c, case in enumerate(cases):
+        i, j, fa, fb, ctx, q = case
+        na, nb = table[i - 1], table[j - 1]
+        v = pairs[(i, j)]
+        exp = [int(bool(x)) for x in v["r"]]
+        out = outcome.get(c, {"panic": "no result"})
+        rep.case((cls(na), cls(nb), v["c"], fa, fb, ctx))
+        ok, got = judge(out, exp, na, nb, ctx == "clause")
+        if not ok:
+            kind = "%s-%s" % (na["t"], nb["t"])
+            sig = "cmp conv=%s kind=%s a=%s b=%s forms=%s/%s ctx=%s expected=%s got=%s" % (
+                conv_tag(na, fa, nb, fb), kind, show(na), show(nb), fa, fb, ctx, exp, got)
+            rep.violation(sig, {"a": na, "b": nb, "forms": [fa, fb], "context": ctx, "query": q,
+                                "expected": exp, "got": got})
+        elif nsamp < 5 and (i * 7 + j * 13) % 1601 == 0:
+            nsamp += 1
+            rep.sample({"a": show(na), "b": show(nb), "forms": [fa, fb], "context": ctx, "query": q[:300], "relations": exp})
     if not rep.samples:
         c = cases[len(cases) // 2]
         rep.sample({"query": c[5][:300], "expected": pairs[(c[0], c[1])]["r"]})
